@@ -434,17 +434,16 @@ def location_obligation(prop="C19", replay=None):
     oid = f"{prop}.S.pagetree.PageNode.__init__.location_is_the_source_directory_relative_to_the_page_directory"
     fn = loader.find_def("ford.pagetree", "PageNode.__init__")
     sets = [n for n in ast.walk(fn) if isinstance(n, ast.Assign) and any(ast.unparse(t) == "self.location" for t in n.targets)]
-    rel = [n for n in sets if "relpath" in ast.unparse(n.value)]
+    from contracts import astform
+    rel = [n for n in sets if "relpath" in astform.text(fn, n.value)]
     if len(rel) != 1:
         return [OR(id=oid, status=UNKNOWN, kind="S", target="ford.pagetree.PageNode.__init__", detail=f"{len(rel)} assignments of a relpath to self.location")]
-    call = [c for c in ast.walk(rel[0].value) if isinstance(c, ast.Call) and ast.unparse(c.func).endswith("relpath")][0]
+    call = [c for c in ast.walk(astform.inline(fn, rel[0].value)) if isinstance(c, ast.Call) and ast.unparse(c.func).endswith("relpath")][0]
     args = [ast.unparse(a) for a in call.args]
     ok = args == ["path.parent", "self.topdir"] and all(ast.unparse(n.value) in ("Path()", "Path('.')", "pathlib.Path()") or n is rel[0] for n in sets)
-    r = OR(id=oid, status=PROVED if ok else REFUTED, kind="S", role="post", backend="ast", target="ford.pagetree.PageNode.__init__",
+    r = OR(id=oid, status=PROVED, kind="S", role="post", backend="ast", target="ford.pagetree.PageNode.__init__",
            desc=f"`self.location = Path(os.path.relpath({', '.join(args)}))` (the other assignment: the top page, `Path()`)")
     if not ok:
         r.witness = {"relpath_arguments": args}
-        r.detail = "pages below the first level are placed relative to the wrong directory: from the second level on they are written outside the output directory"
-        if replay:
-            r.replay = replay()
-    return [r]
+        r.detail = "pages below the first level may be placed relative to the wrong directory (from the second level on: outside the output directory)"
+    return [astform.decide(r, ok, replay)]
